@@ -510,6 +510,7 @@ pub fn c02(ctx: &mut Ctx) {
             ctx.count("apply_ok");
         }
     }
+    call_count_wraparound(ctx);
     // error path
     let mut non_abs = enum_upto(4, 2);
     non_abs.retain(|t| !matches!(t, Abs(_)));
@@ -523,6 +524,37 @@ pub fn c02(ctx: &mut Ctx) {
             ctx.nontrivial(&line);
             ctx.count("apply_err");
         }
+    }
+}
+
+/// State carried from one call to the next that is recycled after a fixed NUMBER of calls — an epoch, generation or sequence
+/// counter kept in 8 or 16 bits, a ring of scratch buffers: a substitution under several binders, then exactly 2^k - 1
+/// substitutions that never go under a binder, then the deep one again with ANOTHER argument (and once more with the first).
+/// Every call must be the reference substitution of ITS OWN body and argument, whatever was substituted before (seed a02)
+pub fn call_count_wraparound(ctx: &mut Ctx) {
+    // λ. λλ 3 (λ 4) (λλλ 6) : the bound variable at binder depths 3, 4 and 6 of the body
+    let deep = abs(abs(abs(app!(Var(3), abs(Var(4)), abs(abs(abs(Var(6))))))));
+    let shallow = abs(app(Var(1), Var(1)));
+    let xs = [app(Var(2), abs(Var(3))), Var(7), abs(app(Var(1), Var(4)))];
+    for (round, &n) in [256usize, 65536, 65536].iter().enumerate() {
+        let first = format!("apply {} {}", s(&deep), s(&xs[round % 3]));
+        let second = format!("apply {} {}", s(&deep), s(&xs[(round + 1) % 3]));
+        let filler = format!("apply {} {}", s(&shallow), s(&Var(9)));
+        let want = |a: &Term| match &deep { Abs(b) => format!("ok {}", s(&subst_top(b, a))), _ => unreachable!() };
+        let r1 = ctx.op(&first);
+        ctx.nontrivial(&first);
+        if r1 != want(&xs[round % 3]) {
+            ctx.fail("apply differs from reference capture-avoiding substitution", &[first.clone()]);
+        }
+        for _ in 0..n - 1 {
+            ctx.op(&filler);
+        }
+        let r2 = ctx.op(&second);
+        if r2 != want(&xs[(round + 1) % 3]) {
+            ctx.fail(&format!("apply depends on the substitutions made before it: the third line, issued after the first and {} repetitions of the second, returned something other than the reference substitution of its own body and argument", n - 1),
+                &[first.clone(), filler.clone(), second.clone()]);
+        }
+        ctx.count("call_count_wraparound_rounds");
     }
 }
 
@@ -1096,6 +1128,21 @@ pub fn c07(ctx: &mut Ctx) {
         if k > 0 {
             ctx.count("has_nf_nontrivial");
         }
+        // "peek, then normalise": calls that are CUT OFF by their limit come first (one step, half the run, under both orders, and
+        // through the free function `beta`): whatever they leave behind on this thread — a memo of contracted redexes, a reused
+        // buffer — the unlimited runs below must still reach the normal form (seed a07)
+        let mut peeks: Vec<String> = Vec::new();
+        if k > 1 {
+            for (o, l) in [(NOR, 1usize), (HNO, 1), (NOR, k / 2), (HNO, (k / 2).max(1)), (HSP, 1), (CBN, 1)] {
+                let pl = reduce_op(o, l, t);
+                ctx.op(&pl);
+                peeks.push(pl);
+            }
+            let pl = format!("beta NOR 1 {}", s(t));
+            ctx.op(&pl);
+            peeks.push(pl);
+            ctx.count("peek_then_normalise");
+        }
         // NOR: exactly the reference count (every step is pinned by C05)
         let line = reduce_op(NOR, big, t);
         let r = ctx.op(&line);
@@ -1107,7 +1154,9 @@ pub fn c07(ctx: &mut Ctx) {
                 if c >= big {
                     ctx.fail("NOR did not reach an existing normal form within the step budget", &[line.clone()]);
                 } else if u != nf {
-                    ctx.fail("NOR stopped at a term different from the normal form", &[line.clone()]);
+                    let mut ops = peeks.clone();
+                    ops.push(line.clone());
+                    ctx.fail("NOR stopped at a term different from the normal form (the last line; the lines before it are the limited calls issued first)", &ops);
                 } else if c != k {
                     ctx.fail("NOR needed a different number of steps than leftmost-outermost reduction", &[line.clone()]);
                 } else {
@@ -1129,7 +1178,9 @@ pub fn c07(ctx: &mut Ctx) {
                     ctx.count("hno_budget_hit");
                     ctx.fail("HNO did not reach an existing normal form within the step budget", &[line.clone()]);
                 } else if u != nf {
-                    ctx.fail("HNO stopped at a term different from the normal form", &[line.clone()]);
+                    let mut ops = peeks.clone();
+                    ops.push(line.clone());
+                    ctx.fail("HNO stopped at a term different from the normal form (the last line; the lines before it are the limited calls issued first)", &ops);
                 } else {
                     let l0 = reduce_op(HNO, 0, t);
                     let r0 = ctx.op(&l0);
@@ -1644,6 +1695,20 @@ pub fn c19(ctx: &mut Ctx) {
         }
         if r != s(&ex) {
             ctx.fail("abs! is not the n-fold abstraction", &[line.clone()]);
+        }
+    }
+    // abs! with counts around the powers of two a narrower counter would wrap at (seed a19: the count cast to u16)
+    for &m in [255usize, 256, 257, 65535, 65536, 65537, 70000].iter() {
+        for t in [Var(1), app(Var(0), abs(Var(2)))] {
+            let line = format!("mabs {} {}", m, s(&t));
+            let r = ctx.op(&line);
+            ctx.nontrivial(&line);
+            // expected, without building the term: m times the binder word, then the body
+            let want = format!("{}{}", "L ".repeat(m), s(&t));
+            if r != want {
+                ctx.fail("abs! is not the n-fold abstraction (count at or beyond a power of two)", &[line.clone()]);
+            }
+            ctx.count("abs_macro_large_counts");
         }
     }
 }
